@@ -4,9 +4,12 @@
 // The test binary is built with -race. Three sources of a verdict:
 //
 //  1. porcupine: every recorded invocation/response history of ConcurrentFactStore operations must be
-//     linearizable with respect to the set-of-atoms specification (TestC18Store);
+//     linearizable with respect to the set-of-atoms specification (TestC18Store). In a share of the
+//     cases the store has been wrapped again with NewConcurrentFactStore and the goroutines reach it
+//     through two or three handles; all handles are views of one store, so there is one history;
 //  2. differential: a program evaluated next to other programs gives the result it gives alone
-//     (TestC18Programs, TestC18ColdParse);
+//     (TestC18Programs, TestC18ColdParse); in half of the cases several jobs read their base facts from
+//     simplecolumn files of their own through factstore.SimpleColumnStore (column_test.go);
 //  3. the race detector: testing.T.Failed() consults the detector's report counter, so a report is
 //     attributed to the case that was running.
 //
@@ -171,6 +174,9 @@ type Op struct {
 	// Slow (merge): the source store yields the processor that many times between two facts it hands out, like
 	// a file-backed or remote source would; a Merge that is not atomic shows while its source is being scanned.
 	Slow int `json:"slow,omitempty"`
+	// H: the handle the operation goes through (index into the handles of the case; 0 = the first wrapper,
+	// also what replay files written before handles existed mean).
+	H int `json:"h,omitempty"`
 }
 
 // slowSource is a read-only store that yields the processor between the facts it streams.
@@ -204,10 +210,15 @@ type Event struct {
 
 // StoreCase is a generated concurrent schedule; History is filled in when a run of it failed.
 type StoreCase struct {
-	Base    string  `json:"base"`
-	Init    []int   `json:"init"`
-	Threads [][]Op  `json:"threads"`
-	Reps    int     `json:"reps"`
+	Base    string `json:"base"`
+	Init    []int  `json:"init"`
+	Threads [][]Op `json:"threads"`
+	Reps    int    `json:"reps"`
+	// Wraps: further handles on the SAME store. Handle 0 is NewConcurrentFactStore(base store); handle k+1 is
+	// NewConcurrentFactStore(handle Wraps[k]) with Wraps[k] <= k, i.e. a concurrent store that was wrapped again
+	// (by a component that defensively wraps whatever store it is given) while the earlier handle stays in
+	// use. All handles are views of one store: one history, one specification. Empty = one handle.
+	Wraps   []int   `json:"wraps,omitempty"`
 	History []Event `json:"history,omitempty"`
 	Note    string  `json:"note,omitempty"`
 }
@@ -364,8 +375,26 @@ func apply(st factstore.ConcurrentFactStore, o Op, src factstore.ReadOnlyFactSto
 	return 0, "unknown operation"
 }
 
-func prepare(c StoreCase) (factstore.ConcurrentFactStore, [][]factstore.ReadOnlyFactStore) {
-	st := factstore.NewConcurrentFactStore(newBase(c.Base))
+// handleOf returns the handle an operation goes through (a replay file edited by hand may name a handle
+// that does not exist: it then means the first one).
+func handleOf(hs []factstore.ConcurrentFactStore, o Op) factstore.ConcurrentFactStore {
+	if o.H < 0 || o.H >= len(hs) {
+		return hs[0]
+	}
+	return hs[o.H]
+}
+
+// prepare builds the store under test and returns all handles on it: handle 0 wraps the base store,
+// every further handle wraps an earlier handle again (see StoreCase.Wraps).
+func prepare(c StoreCase) ([]factstore.ConcurrentFactStore, [][]factstore.ReadOnlyFactStore) {
+	hs := []factstore.ConcurrentFactStore{factstore.NewConcurrentFactStore(newBase(c.Base))}
+	for k, w := range c.Wraps {
+		if w < 0 || w > k {
+			w = k
+		}
+		hs = append(hs, factstore.NewConcurrentFactStore(hs[w]))
+	}
+	st := hs[0]
 	for _, i := range c.Init {
 		st.Add(universe[i])
 	}
@@ -385,14 +414,14 @@ func prepare(c StoreCase) (factstore.ConcurrentFactStore, [][]factstore.ReadOnly
 			}
 		}
 	}
-	return st, srcs
+	return hs, srcs
 }
 
 // execConcurrent runs the schedule once: one goroutine per thread, released together by a spin
 // barrier; invocation and response are stamped with one atomic counter, so e.Ret < f.Call implies
 // that e's response happened before f's invocation.
 func execConcurrent(c StoreCase) []Event {
-	st, srcs := prepare(c)
+	hs, srcs := prepare(c)
 	n := len(c.Threads)
 	var clock atomic.Int64
 	var arrived atomic.Int32
@@ -410,7 +439,7 @@ func execConcurrent(c StoreCase) []Event {
 					runtime.Gosched()
 				}
 				call := clock.Add(1)
-				out, bad := apply(st, o, srcs[ti][oi])
+				out, bad := apply(handleOf(hs, o), o, srcs[ti][oi])
 				ret := clock.Add(1)
 				evs = append(evs, Event{T: ti, I: oi, Call: call, Ret: ret, Out: out, Bad: bad})
 			}
@@ -441,14 +470,14 @@ func barrier(arrived *atomic.Int32, n int) {
 // execOrder runs the operations one at a time in one goroutine, in the given order of (goroutine,
 // index) pairs (a legal schedule if it keeps each goroutine's own order).
 func execOrder(c StoreCase, order [][2]int) []Event {
-	st, srcs := prepare(c)
+	hs, srcs := prepare(c)
 	var clock int64
 	var h []Event
 	for _, ti := range order {
 		o := c.Threads[ti[0]][ti[1]]
 		clock++
 		call := clock
-		out, bad := apply(st, o, srcs[ti[0]][ti[1]])
+		out, bad := apply(handleOf(hs, o), o, srcs[ti[0]][ti[1]])
 		clock++
 		h = append(h, Event{T: ti[0], I: ti[1], Call: call, Ret: clock, Out: out, Bad: bad})
 	}
@@ -529,18 +558,23 @@ func sequentialDeviation(c StoreCase) []Event {
 func isMutator(k string) bool { return k == opAdd || k == opRemove || k == opMerge }
 
 // overlaps classifies the real-time overlaps of a history between operations of different goroutines.
-func overlaps(c StoreCase, h []Event) (ww, rw bool) {
+// cross: a mutator overlapped with an operation that went through a DIFFERENT handle on the store.
+func overlaps(c StoreCase, h []Event) (ww, rw, cross bool) {
 	for i := range h {
 		for j := i + 1; j < len(h); j++ {
 			a, b := h[i], h[j]
 			if a.T == b.T || a.Ret < b.Call || b.Ret < a.Call {
 				continue
 			}
-			ma, mb := isMutator(c.Threads[a.T][a.I].K), isMutator(c.Threads[b.T][b.I].K)
+			oa, ob := c.Threads[a.T][a.I], c.Threads[b.T][b.I]
+			ma, mb := isMutator(oa.K), isMutator(ob.K)
 			if ma && mb {
 				ww = true
 			} else if ma || mb {
 				rw = true
+			}
+			if (ma || mb) && oa.H != ob.H {
+				cross = true
 			}
 		}
 	}
@@ -595,7 +629,11 @@ func describe(c StoreCase, h []Event) string {
 		case opMerge:
 			arg = fmt.Sprint(o.Set)
 		}
-		fmt.Fprintf(&sb, "  [%3d,%3d] g%d %s(%s) -> %d %s\n", e.Call, e.Ret, e.T, o.K, arg, e.Out, e.Bad)
+		via := ""
+		if len(c.Wraps) > 0 {
+			via = fmt.Sprintf(" via handle %d", o.H)
+		}
+		fmt.Fprintf(&sb, "  [%3d,%3d] g%d %s(%s)%s -> %d %s\n", e.Call, e.Ret, e.T, o.K, arg, via, e.Out, e.Bad)
 	}
 	return sb.String()
 }
@@ -605,7 +643,19 @@ func describe(c StoreCase, h []Event) string {
 // mode, where the testing package attributes the report to TestReplay itself).
 func checkStore(run *stats.Run, f stats.Failer, c StoreCase, reps int, raced func() bool) verdict {
 	c.History, c.Note = nil, ""
-	v := verdict{labels: []string{"base:" + c.Base, fmt.Sprintf("goroutines:%d", len(c.Threads))}}
+	v := verdict{labels: []string{"base:" + c.Base, fmt.Sprintf("goroutines:%d", len(c.Threads)), fmt.Sprintf("handles:%d", 1+len(c.Wraps))}}
+	if len(c.Wraps) > 0 {
+		shape := "chain" // every handle wraps the previous one
+		for k, w := range c.Wraps {
+			if w != k {
+				shape = "star" // two handles wrap the same earlier handle
+			}
+		}
+		if len(c.Wraps) == 1 {
+			shape = "double"
+		}
+		v.labels = append(v.labels, "rewrapped:"+shape)
+	}
 	kinds := map[string]bool{}
 	for _, ops := range c.Threads {
 		for _, o := range ops {
@@ -639,7 +689,7 @@ func checkStore(run *stats.Run, f stats.Failer, c StoreCase, reps int, raced fun
 		// rapid is shrinking a schedule-dependent failure: give smaller schedules more chances to show it.
 		reps *= 8
 	}
-	anyWW, anyRW := false, false
+	anyWW, anyRW, anyCross := false, false, false
 	// reps executions; while no mutator has overlapped with another goroutine's operation yet (a busy
 	// machine), up to 2*reps further ones. More executions of the same schedule never weaken the verdict.
 	for r := 0; r < reps || (!anyWW && !anyRW && r < 3*reps); r++ {
@@ -647,7 +697,7 @@ func checkStore(run *stats.Run, f stats.Failer, c StoreCase, reps int, raced fun
 		if raced != nil && raced() {
 			fc := c
 			fc.History, fc.Note = h, "data race reported while this history was recorded"
-			failCase(run, f, fc, "data race reported by the race detector during a run of this schedule (base %s, %d goroutines); report is in the log; recorded history:\n%s", c.Base, len(c.Threads), describe(c, h))
+			failCase(run, f, fc, "data race reported by the race detector during a run of this schedule (base %s, %d goroutines, %d handle(s) on the store); report is in the log; recorded history:\n%s", c.Base, len(c.Threads), 1+len(c.Wraps), describe(c, h))
 		}
 		for _, e := range h {
 			if e.Bad != "" {
@@ -665,12 +715,18 @@ func checkStore(run *stats.Run, f stats.Failer, c StoreCase, reps int, raced fun
 			}
 			fc := c
 			fc.History, fc.Note = h, "non-linearizable"
-			failCase(run, f, fc, "history of ConcurrentFactStore over %q is not linearizable w.r.t. the set specification (initial atoms %v, run %d of %d). Core (read-only operations that are not needed for the contradiction left out):\n%sfull history:\n%s",
-				c.Base, c.Init, r+1, reps, describe(c, core(c, h)), describe(c, h))
+			failCase(run, f, fc, "history of ConcurrentFactStore over %q (%d handle(s) on the one store) is not linearizable w.r.t. the set specification (initial atoms %v, run %d of %d). Core (read-only operations that are not needed for the contradiction left out):\n%sfull history:\n%s",
+				c.Base, 1+len(c.Wraps), c.Init, r+1, reps, describe(c, core(c, h)), describe(c, h))
 		}
-		ww, rw := overlaps(c, h)
+		ww, rw, cross := overlaps(c, h)
 		anyWW = anyWW || ww
 		anyRW = anyRW || rw
+		anyCross = anyCross || cross
+	}
+	if anyCross {
+		v.labels = append(v.labels, "overlap:across-handles")
+	} else if len(c.Wraps) > 0 {
+		v.labels = append(v.labels, "overlap:never-across-handles")
 	}
 	if anyWW {
 		v.labels = append(v.labels, "overlap:writer-writer")
@@ -702,7 +758,23 @@ func genStoreCase(t *rapid.T) StoreCase {
 		}
 	}
 	n := rapid.IntRange(2, 4).Draw(t, "goroutines")
+	// Handles: in 7 of 16 cases the concurrent store has been wrapped again once or twice and the
+	// goroutines reach the one store through different handles.
+	handles := 1
+	switch w := rapid.IntRange(0, 15).Draw(t, "handles"); {
+	case w >= 13:
+		handles = 3
+	case w >= 9:
+		handles = 2
+	}
+	for k := 1; k < handles; k++ {
+		c.Wraps = append(c.Wraps, rapid.IntRange(0, k-1).Draw(t, "wraps"))
+	}
+	// perOp: every operation draws its handle; otherwise a goroutine keeps to one handle (goroutine g starts
+	// from handle g mod handles, so that at least two handles are in use) and strays from it now and then.
+	perOp := handles > 1 && rapid.Bool().Draw(t, "handlePerOp")
 	for g := 0; g < n; g++ {
+		home := g % handles
 		k := rapid.IntRange(3, 8).Draw(t, "nops")
 		ops := make([]Op, k)
 		for i := range ops {
@@ -738,6 +810,12 @@ func genStoreCase(t *rapid.T) StoreCase {
 			}
 			if rapid.IntRange(0, 3).Draw(t, "yield?") == 0 {
 				o.Y = rapid.IntRange(1, 3).Draw(t, "yields")
+			}
+			if handles > 1 {
+				o.H = home
+				if perOp || rapid.IntRange(0, 5).Draw(t, "stray") == 0 {
+					o.H = rapid.IntRange(0, handles-1).Draw(t, "handle")
+				}
 			}
 			ops[i] = o
 		}
